@@ -31,6 +31,16 @@ def key_family(name, n, rng=None):
     elif name == "fix20":        # fixed 20-byte keys (the width of the library's Byte20KeyMapper), e.g. SHA-1 sized
         ks = sorted(bytes(rng.randrange(256) for _ in range(18)) + bytes([i // 256, i % 256]) for i in range(n))
         ks = [bytes([i // 256, i % 256]) + k[:18] for i, k in enumerate(ks)]
+    elif name == "zerotail":     # short keys that differ only in trailing 0x00 bytes (any zero-padded fixed-width view of a key confuses them); rank 0 = EMPTY key
+        ks = []
+        b = 0
+        while len(ks) < n:
+            for z in range(4):
+                ks.append((bytes([b]) if b else b"") + b"\x00" * z)
+            b += 1
+        ks = sorted(set(ks))[:n]
+    elif name == "zerotail8":    # the same around 8 bytes (one machine word)
+        ks = sorted({bytes([1 + i // 4]) * 6 + b"\x00" * (i % 4) for i in range(n + 4)})[:n]
     elif name == "biglast":      # last key of several KiB dominating the index
         ks = [(i + 1).to_bytes(4, "big") for i in range(n - 1)] + [b"\xff" * 6000]
     else:
